@@ -338,7 +338,7 @@ def judge_slab(st: State, ev):
                 'right': repr(float(ri.ravel()[i])), 'h/|n.a|': repr(float(exp.ravel()[i])),
                 'origin_height_over_base': repr(float(z0.ravel()[i])), 'h': repr(float(hh.ravel()[i]))}
         ctx.violation('helper_slab', 'slab interval is not {t: 0 <= z0 + t n.a <= h}', case,
-                      origin=st.origin, what='width' if bad_w.ravel()[i] else 'membership')
+                      origin=st.origin, aspect='width' if bad_w.ravel()[i] else 'membership')
 
 
 def judge_infinite_cylinder(st: State, ev):
@@ -396,7 +396,7 @@ def judge_infinite_cylinder(st: State, ev):
                 'B': repr(float(np.ravel(B)[i])), 'C': repr(float(np.ravel(C)[i]))}
         ctx.violation('helper_infinite_cylinder',
                       'interval is not {t: rho(t n - b) <= r} for a well-conditioned line', case,
-                      origin=st.origin, what='flag' if bad_f.ravel()[i] else 'roots')
+                      origin=st.origin, aspect='flag' if bad_f.ravel()[i] else 'roots')
 
 
 # ------------------------------------------------------------ quadrature monitor ---
@@ -1294,6 +1294,16 @@ def _mp_selftest(ctx):
     return {'samples': 40, 'max_abs_diff_over_r_plus_h': worst}
 
 
+def _safe(st, name, f):
+    """A handler must never raise into the code under test."""
+    def h(ev):
+        try:
+            f(st, ev)
+        except Exception:  # noqa: BLE001
+            st.ctx.oracle_error(f'C18 handler {name}')
+    return h
+
+
 def run(shard, ctx):
     import scippneutron.absorption.base as B
     import scippneutron.absorption.cylinder as CY
@@ -1308,25 +1318,25 @@ def run(shard, ctx):
     rng = np.random.Generator(np.random.PCG64([shard['seed'], shard['index'], 18]))
     tr = Tracer()
     tr.watch(Cylinder.beam_intersection, 'Cylinder.beam_intersection',
-             on_return=lambda ev: judge_beam(st, ev))
+             on_return=_safe(st, 'judge_beam', judge_beam))
     tr.watch(CY._positive_interval_intersection, '_positive_interval_intersection',
-             on_return=lambda ev: judge_positive_interval(st, ev))
+             on_return=_safe(st, 'judge_positive_interval', judge_positive_interval))
     tr.watch(CY._line_slab_intersection, '_line_slab_intersection',
-             on_return=lambda ev: judge_slab(st, ev))
+             on_return=_safe(st, 'judge_slab', judge_slab))
     tr.watch(CY._line_infinite_cylinder_intersection, '_line_infinite_cylinder_intersection',
-             on_return=lambda ev: judge_infinite_cylinder(st, ev))
+             on_return=_safe(st, 'judge_infinite_cylinder', judge_infinite_cylinder))
     tr.watch(Cylinder.quadrature, 'Cylinder.quadrature',
-             on_return=lambda ev: on_quadrature_return(st, ev))
+             on_return=_safe(st, 'on_quadrature_return', on_quadrature_return))
     tr.watch(Cylinder._select_quadrature_points, 'Cylinder._select_quadrature_points',
-             on_return=lambda ev: judge_select(st, ev))
+             on_return=_safe(st, 'judge_select', judge_select))
     tr.watch(B.compute_transmission_map, 'compute_transmission_map',
-             on_return=lambda ev: judge_map(st, ev))
+             on_return=_safe(st, 'judge_map', judge_map))
     tr.watch(B._single_scatter_distance_through_sample, '_single_scatter_distance_through_sample',
-             on_return=lambda ev: judge_single_scatter(st, ev))
+             on_return=_safe(st, 'judge_single_scatter', judge_single_scatter))
     tr.watch(B._integrate_transmission_fraction, '_integrate_transmission_fraction',
-             on_return=lambda ev: on_integrate_return(st, ev))
+             on_return=_safe(st, 'on_integrate_return', on_integrate_return))
     tr.watch(Material.attenuation_coefficient, 'Material.attenuation_coefficient',
-             on_return=lambda ev: judge_mu(st, ev))
+             on_return=_safe(st, 'judge_mu', judge_mu))
     mods = (Cylinder, Material, ScatteringParams, compute_transmission_map)
     with tr:
         st.origin = 'direct'
